@@ -11,6 +11,7 @@ import (
 
 	"github.com/openconfig/goyang/pkg/yang"
 	"verifharness/core"
+	"verifharness/fam/schema"
 )
 
 func init() {
@@ -303,4 +304,6 @@ func check(r *core.Run) {
 			return true
 		})
 	}
+	// identities whose bases arrive with a later load: the lists are those of a fresh set
+	schema.SessionHistories(r, "C11", "idm")
 }
